@@ -14,17 +14,17 @@ Open Scope Z_scope.
    start() operations, any frame scripts issued from a processor, an event
    callback or a coroutine at any processor position, any events poked at
    other worlds, any one-shot reactions of the load-time / switch-time / quit
-   callbacks, nested to any depth) that contains
-     - no switch() call with clear_next, nor with clear_current towards the
-       loop's current handle (known finding K5), and
-     - no switch request made by a callback while the loop is carrying out a
-       switch (known finding K10),
-   and whose observed logs the model of desper/loop.py accepts, the checker of
+   callbacks, nested to any depth, including switch requests made by the
+   callbacks of a world while the loop is entering it) that contains no
+   switch() call with clear_next, nor with clear_current towards the loop's
+   current handle (known finding K5), and whose observed logs the model of desper/loop.py accepts, the checker of
    Loop/R13Model.v accepts the logs:
    - a switch request (switch() or a bare SwitchWorld, from a script or from
-     an on_switch_out / on_quit callback) abandons the frame: no further
-     processor is called, and the world processed by the next iteration is
-     the instance the target handle holds;
+     any callback) abandons the frame: no further processor is called, and the
+     world processed by the next iteration is the instance the LAST target
+     handle holds: a request made while the loop is entering a world makes it
+     go on to the new target, each intermediate world getting its
+     on_switch_in / on_switch_out as below;
    - through switch(), on_switch_out(from, to) is delivered exactly once, in
      [from], at once; on_switch_in(from, to) is held by the target and is
      delivered in the instance the loop enters, after everything that
@@ -123,22 +123,36 @@ Theorem C13_clear_current_self_refuted :
   exists c, wf_b c = true /\ known13_b c = true /\ accepts c = true /\ holds13_b c = false.
 Proof. exists k5_witness_self. vm_compute. auto. Qed.
 
-(* known finding K10: the on_switch_in callback of the entered world asks for
-   another switch (raise SwitchWorld) while SimpleLoop.loop is in its except
-   clause: the exception is not caught, start() dies with SwitchWorld and the
-   target is never processed *)
-Definition k10_witness : C13_case :=
+(* the former known finding K10 (repaired in /repo by ce4190f): on_switch_in of
+   world 2 calls switch(handle 2): world 2 gets on_switch_out(2,3) and is
+   muted, world 3 is loaded, entered and gets its on_world_load and
+   on_switch_in(2,3); the next iteration processes world 3 *)
+Definition chain_case : C13_case :=
   {| c_nps := [1%nat; 1%nat; 1%nat];
      c_ops :=
        [ top0;
          (OStart [fr 0 [] (ASwitch 1 false false true); fr 8 [] ANormal] EndQuit
-                 [(KIn, ARaiseSW 2 false false)],
+                 [(KIn, ASwitch 2 false false false)],
           [EClock 0 1 0; EProc 1 0%nat 0; EAct OProc (ASwitch 1 false false true) 1 0;
            ELoad 1 2; EEv 1 (VOut 1 2); EEv 2 (VLoad 1 2); EEv 2 (VIn 1 2);
-           EAct (OCallback KIn true) (ARaiseSW 2 false false) 2 1; EEnd RaisedSwitch 2 1]) ] |}.
-Theorem C13_switch_from_switch_in_refuted :
-  exists c, wf_b c = true /\ known13_b c = true /\ accepts c = true /\ holds13_b c = false.
-Proof. exists k10_witness. vm_compute. auto. Qed.
+           EAct (OCallback KIn true) (ASwitch 2 false false false) 2 1;
+           ELoad 2 3; EEv 2 (VOut 2 3); EEv 3 (VLoad 2 3); EEv 3 (VIn 2 3);
+           EClock 8 3 2; EProc 3 0%nat 8; EClockEnd EndQuit 3 2; EEnd (Returned false) 3 2]) ] |}.
+Example C13_switch_chain_holds :
+  wf_b chain_case = true /\ known13_b chain_case = false /\ accepts chain_case = true /\
+  holds13_b chain_case = true.
+Proof. vm_compute. auto. Qed.
+(* what the unrepaired loop did: the request escapes start() as SwitchWorld *)
+Example C13_switch_request_escapes_rejected :
+  holds13_b {| c_nps := [1%nat; 1%nat; 1%nat];
+               c_ops := [ top0;
+                 (OStart [fr 0 [] (ASwitch 1 false false true); fr 8 [] ANormal] EndQuit
+                         [(KIn, ARaiseSW 2 false false)],
+                  [EClock 0 1 0; EProc 1 0%nat 0; EAct OProc (ASwitch 1 false false true) 1 0;
+                   ELoad 1 2; EEv 1 (VOut 1 2); EEv 2 (VLoad 1 2); EEv 2 (VIn 1 2);
+                   EAct (OCallback KIn true) (ARaiseSW 2 false false) 2 1;
+                   EEnd RaisedSwitch 2 1]) ] |} = false.
+Proof. vm_compute. reflexivity. Qed.
 
 (* logs of implementations that break the property are rejected by the
    checker.  (a) the world left is not muted *)
